@@ -41,4 +41,24 @@ fn main() {
     for i in 0..70000u32 { if b.is_revoked(i) != [3u32, 254, 65536].contains(&i) { return Err(format!("membership of {i} wrong")); } }
     Ok(())
   });
+  w("rb_document_revoke_unrevoke_exact_indices", || {
+    use identity_core::convert::FromJson;
+    use identity_credential::revocation::RevocationDocumentExt;
+    use identity_document::document::CoreDocument;
+    let sid = DIDUrl::parse("did:example:1#rev").unwrap();
+    let mut d = CoreDocument::from_json(r#"{"id":"did:example:1"}"#).unwrap();
+    d.insert_service(RevocationBitmap::new().to_service(sid.clone()).unwrap()).map_err(|e| format!("setup: {e}"))?;
+    let members = |d: &CoreDocument, probe: &[u32]| -> Vec<u32> { let b = d.resolve_revocation_bitmap((&sid).into()).unwrap(); probe.iter().cloned().filter(|i| b.is_revoked(*i)).collect() };
+    let probe = [3u32, 5, 7, 9, 11, 65536];
+    let steps: [(&str, &[u32], Vec<u32>); 6] = [
+      ("revoke", &[5], vec![5]), ("revoke", &[7, 5], vec![5, 7]), ("revoke", &[9, 9, 3], vec![3, 5, 7, 9]),
+      ("unrevoke", &[7, 11], vec![3, 5, 9]), ("unrevoke", &[3, 42], vec![5, 9]), ("revoke", &[65536, 5], vec![5, 9, 65536]),
+    ];
+    for (op, idx, want) in steps {
+      if op == "revoke" { d.revoke_credentials(&sid, idx) } else { d.unrevoke_credentials(&sid, idx) }.map_err(|e| format!("{op} {idx:?}: {e}"))?;
+      let got = members(&d, &probe);
+      if got != want { return Err(format!("after {op} {idx:?}: members among {probe:?} are {got:?}, expected {want:?}")); }
+    }
+    Ok(())
+  });
 }
